@@ -14,7 +14,7 @@ RULE = ('constructor matrix: source in {plain str, ANSI-coded str, AnsiString, A
         'with >=2 change points; distinct by case.')
 ASSUMPTIONS = ['in-place-only operations of AnsiString (assign_str, set_ansi_str, copy) have no AnsiStr counterpart and are not twinned']
 
-CFG = gen.Cfg(esc=False, odd=0.15, invalid=True, incomplete=False, max_ops=4, cls_s=0.0)
+CFG = gen.Cfg(esc=True, odd=0.15, invalid=True, incomplete=False, max_ops=4, cls_s=0.0)
 SPECS = ['', '>12', '*^9:red', 'x-<7:bold', ':underline']
 
 
